@@ -101,8 +101,12 @@ def handleRunLoop (inp impl : Json) : Verdict :=
     | none => { passed := 0, failed := 0, expected := 0, notRun := 0 }
   -- which of the classes "failed" (set-up error: no result) and "could not be run" a case that got
   -- no answer falls into depends on the race between the sender and the shut-down; their sum does not
-  let agree := iOk == mOk && iTot.passed == mTot.passed && iTot.expected == mTot.expected
-    && iTot.failed + iTot.notRun == mTot.failed + mTot.notRun
+  -- a request answered "blindly" (before it was fully sent, the client exiting right after) races
+  -- with the failing write of that same request: it is recorded either with the client's answer or
+  -- as could-not-run; both are legitimate, so class counts are compared only without such requests
+  let strict := blind.isEmpty
+  let agree := iOk == mOk && (!strict || (iTot.passed == mTot.passed && iTot.expected == mTot.expected
+    && iTot.failed + iTot.notRun == mTot.failed + mTot.notRun))
   let why :=
     if !want && iOk then
       "verdict: Run returned success although not every selected case ran and met its expectation ("
@@ -113,7 +117,7 @@ def handleRunLoop (inp impl : Json) : Verdict :=
     else if !unnamed.isEmpty then "unnamed: failing cases not named on a FAILED line: " ++ toString unnamed
     else if sum != names.length then
       "totals: the printed totals account for " ++ toString sum ++ " of " ++ toString names.length ++ " selected cases"
-    else if iTot.passed != wantTot.passed || iTot.expected != wantTot.expected then
+    else if strict && (iTot.passed != wantTot.passed || iTot.expected != wantTot.expected) then
       "classes: printed passed/expected " ++ toString iTot.passed ++ "/" ++ toString iTot.expected ++
         " but the answered cases give " ++ toString wantTot.passed ++ "/" ++ toString wantTot.expected
     else if iFailed.length != iTot.failed || iInfo.length != iTot.expected then
@@ -178,6 +182,14 @@ def handle : Handler := fun op inp impl =>
       else ""
     { agree := agree, holds := why.isEmpty, nontrivial := nontrivial, model := model, why := why,
       cls := if wantOk then "success" else "failure" }
+  | "batchfate" =>
+    -- the server died after `dies` of `n` requests; the cases it never served are marked
+    -- known-failing: they could not be run, so the run must not succeed
+    if !(isNull (field impl "panic")) || bool (field impl "hang") then
+      { agree := false, holds := false, why := "batch with a dying server panicked or hung" } else
+    let holds := !(bool (field impl "ok"))
+    { agree := holds, holds := holds, nontrivial := true, cls := if bool (field inp "exitNil") then "fate:clean-exit" else "fate:crash",
+      why := if holds then "" else s!"server died after {nat (field inp "dies")} of {nat (field inp "n")} requests (clean exit: {bool (field inp "exitNil")}); the cases it never served are known-failing, yet the run succeeded: " ++ toString (strList (field impl "lines")) }
   | "feedback" =>
     -- every case of the batch passes; the reference server's stderr carries one feedback line for
     -- the target case: the run must fail and name that case (C04: peer feedback turns an
